@@ -160,12 +160,20 @@ impl GenerationPass for AvailableValuePass {
                     continue;
                 }
 
+                // A node that had to be promoted (see below) is an entry of
+                // unreachable code: nothing is known there, whatever comes
+                // around the loop later. Taking the values of its
+                // predecessors into account after the first visit mixes them
+                // with the "nothing known" it started from, and the values in
+                // the loop can then flip between two states forever.
+                let is_root = roots.iter().any(|x| Rc::ptr_eq(x, &node));
+
                 // in[n] = AND out[p] for all p in prev[n]
                 let in_reg_n = node
                     .prevs()
                     .clone()
                     .into_iter()
-                    .filter(|x| visited.contains(x))
+                    .filter(|x| !is_root && visited.contains(x))
                     .map(|x| x.reg_values_out())
                     .reduce(|mut acc, x| {
                         acc &= &x;
@@ -179,7 +187,7 @@ impl GenerationPass for AvailableValuePass {
                     .prevs()
                     .clone()
                     .into_iter()
-                    .filter(|x| visited.contains(x))
+                    .filter(|x| !is_root && visited.contains(x))
                     .map(|x| x.memory_values_out())
                     .reduce(|mut acc, x| {
                         acc &= &x;
